@@ -59,7 +59,8 @@ def floors(tier):
     return {'evaluations': 100000, 'distinct_nontrivial': 8000, 'nodes_mode_checked': 200000,
             'automaton_compared': 2000, 'ground_truth_pieces': 30000, 'formulas_checked': 15000,
             'hist:nesting:math-in-text-in-math': 50, 'hist:nesting:text-in-math': 200,
-            'hist:adjacent:inline-inline-dollar': 20, 'mixed_mode_argument_calls': 200}
+            'hist:adjacent:inline-inline-dollar': 20, 'mixed_mode_argument_calls': 200,
+            'direct_math_parser_calls': 5000, 'histkeys:math_parser_delimiters': 3}
 
 
 def setup(rec):
@@ -301,10 +302,37 @@ def check_case(case, rec):
         rec.hist('nesting', 'math-directly-in-math')
     if not err and case.get('ast') is not None:
         err = ground_truth(case, s, nl, rec)
+    if not err and case.get('automaton'):
+        err = direct_math_parser(s, nl, rec)
     if any(canon.kind(n) == 'math' for n in canon.walk(nl)) or info:
         rec.nontrivial(s)
     if err:
         rec.violation(case, '%s | source %r | tree %s' % (err, s, canon.short(nl)[:500]), mech=err.split(' at ')[0][:40])
+
+
+def direct_math_parser(s, nl, rec):
+    """The public formula parser used directly, with each documented way of naming the delimiters (None = detect, the opening
+    delimiter, an (opening, closing) pair), must give the formula node the document parse gives at that place: same extent,
+    same recorded modes and opening delimiter throughout."""
+    from pylatexenc.latexnodes.parsers import LatexMathParser
+    from ..util import walker
+    for m in [n for n in nl if n is not None and canon.kind(n) == 'math'][:2]:
+        want = canon.canon(m)
+        for form in (None, m.delimiters[0], (m.delimiters[0], m.delimiters[1])):
+            lw = walker(s, tolerant=False)
+            rec.monitor('direct_math_parser_calls')
+            rec.hist('math_parser_delimiters', 'None' if form is None else ('pair' if isinstance(form, tuple) else 'opening'))
+            try:
+                got, _ = lw.parse_content(LatexMathParser(math_mode_delimiters=form), token_reader=lw.make_token_reader(pos=m.pos))
+            except Exception as e:
+                return 'LatexMathParser(math_mode_delimiters=%r) at %d raised %s: %s; the document parse finds the formula %s' % (
+                    form, m.pos, type(e).__name__, str(getattr(e, 'msg', e))[:80], canon.short(m))
+            if canon.canon(got) != want:
+                mm = [(x.pos, canon.kind(x), bool(x.parsing_state.in_math_mode), x.parsing_state.math_mode_delimiter)
+                      for x in canon.walk(got) if getattr(x, 'parsing_state', None) is not None]
+                return 'LatexMathParser(math_mode_delimiters=%r) at %d gives %s with recorded modes %r; the document parse ' \
+                       'gives %s' % (form, m.pos, canon.short(got), mm, canon.short(m))
+    return None
 
 
 def ground_truth(case, s, nl, rec):
